@@ -118,8 +118,9 @@ func (c *baseTrafficShapingController) performCheckingForConcurrencyMetric(arg i
 	initConcurrency := int64(0)
 	concurrencyPtr := c.metric.ConcurrencyCounter.AddIfAbsent(arg, &initConcurrency)
 	if concurrencyPtr == nil {
-		// First to access this arg
-		return nil
+		// First to access this arg: the counter starts at zero and is checked like any other,
+		// so a threshold of 0 also rejects the very first request for the value.
+		concurrencyPtr = &initConcurrency
 	}
 	concurrency := atomic.LoadInt64(concurrencyPtr)
 	concurrency++
